@@ -108,6 +108,12 @@ func Main(component string, newAdapter func() Adapter, gen RandGen) {
 		var samples []interface{}
 		idx := []map[string]interface{}{}
 		for i := 0; i < *n; i++ {
+			// every second history is observed sparsely
+			if i%2 == 1 {
+				SparseObs = rand.New(rand.NewSource(*seed + int64(i)))
+			} else {
+				SparseObs = nil
+			}
 			init := State{S: gen.Init(rng)}
 			ops := make([]Op, *ln)
 			for j := range ops {
